@@ -77,6 +77,7 @@ type driver struct {
 	name string
 
 	softNoted int
+	seenNote  map[string]bool
 }
 
 // drive runs gen for every spec in parallel and merges the tallies.
@@ -123,7 +124,7 @@ func (d *driver) drive(specs []ARSpec, gen func(fx *fixture, emit func(Case))) {
 			if v.msg != "" && len(t.viols) < 3 {
 				t.viols = append(t.viols, ev.Violation{Signature: v.sig, Sub: d.name, Message: v.msg, Case: c})
 			}
-			if t.sample == nil || t.evals == 3 {
+			if t.evals <= 12 {
 				t.sample = map[string]any{"sub": d.name, "case": c, "outcome": v.outcome, "cas_calls": v.calls, "referenced_objects": v.nRef}
 			}
 		})
@@ -162,7 +163,11 @@ func (d *driver) drive(specs []ARSpec, gen func(fx *fixture, emit func(Case))) {
 			d.r.Violate(v)
 		}
 		for _, sc := range t.softCases {
-			if d.softNoted < 6 {
+			if d.softNoted < 6 && !d.seenNote[sc] {
+				if d.seenNote == nil {
+					d.seenNote = map[string]bool{}
+				}
+				d.seenNote[sc] = true
 				d.softNoted++
 				d.r.Note(d.name + ": decorator stricter than proto.Unmarshal on an altered Tree served without validation: " + sc)
 			}
@@ -304,10 +309,10 @@ func main() {
 			for so := 0; so <= 2; so++ {
 				for se := 0; se <= 2; se++ {
 					for _, dc := range combos {
-						// quick tier: with output directories only 4 of the 9
-						// stdout/stderr combinations (absent+absent, digest+digest,
-						// inline+digest, digest+inline)
-						if !thorough && len(dc) > 0 && !((so == 0 && se == 0) || (so == 1 && se == 1) || (so == 2 && se == 1) || (so == 1 && se == 2)) {
+						// with two output directories (quick tier: with any) only 4
+						// of the 9 stdout/stderr combinations (absent+absent,
+						// digest+digest, inline+digest, digest+inline)
+						if (len(dc) == 2 || (!thorough && len(dc) == 1)) && !((so == 0 && se == 0) || (so == 1 && se == 1) || (so == 2 && se == 1) || (so == 1 && se == 2)) {
 							continue
 						}
 						for _, col := range []bool{false, true} {
@@ -317,7 +322,7 @@ func main() {
 				}
 			}
 		}
-		sub := r.NewSub("missing-subsets", "venum", fmt.Sprintf("{0,1,2 output files} x {stdout absent/digest/inline} x {stderr likewise}"+ev.Pick(r, " (with output directories: only absent+absent, digest+digest, inline+digest, digest+inline)", "")+" x {no dir, 42 single dirs (21 Tree shapes x root digest y/n), ordered pairs over %d shapes x root y/n} x {distinct, colliding blob digests} = %d ActionResults; x every subset of the referenced objects missing (2^n for n<=8, else none+singletons+all) x batch sizes %s x (when a Tree is in the subset) Get refuses / still serves it; validating CAS buffer", len(pairShapesMain), len(specs), ev.Pick(r, "{1,2,3,64} plus 1000 when nothing / one object / everything is missing", "{1,2,3,64,1000}")))
+		sub := r.NewSub("missing-subsets", "venum", fmt.Sprintf("{0,1,2 output files} x {stdout absent/digest/inline} x {stderr likewise}"+ev.Pick(r, " (with output directories: only absent+absent, digest+digest, inline+digest, digest+inline)", " (with two output directories: only absent+absent, digest+digest, inline+digest, digest+inline)")+" x {no dir, 42 single dirs (21 Tree shapes x root digest y/n), ordered pairs over %d shapes x root y/n} x {distinct, colliding blob digests} = %d ActionResults; x every subset of the referenced objects missing (2^n for n<=8, else none+singletons+all) x batch sizes %s x (when a Tree is in the subset) Get refuses / still serves it; validating CAS buffer", len(pairShapesMain), len(specs), ev.Pick(r, "{1,2,3,64} plus 1000 when nothing / one object / everything is missing", "{1,2,3,64,1000}")))
 		done := sub.Timer()
 		d := &driver{r: r, sub: sub, name: "missing-subsets"}
 		d.drive(specs, func(fx *fixture, emit func(Case)) {
@@ -449,7 +454,7 @@ func main() {
 			bms = append(bms, bm{modeCASReader, 0}, bm{modeCASReader, 7}, bm{modeCASReader, 33})
 		}
 		cbatches := ev.Pick(r, []int{1, 64}, batchSizes)
-		bits := ev.Pick(r, []int{0, 5, 7}, []int{0, 1, 2, 3, 4, 5, 6, 7})
+		bits := ev.Pick(r, []int{0, 1, 5, 7}, []int{0, 1, 2, 3, 4, 5, 6, 7})
 		sub := r.NewSub("tree-corruption", "venum", fmt.Sprintf("%d ActionResults (1 file, stdout, each of the 21 Tree shapes x root digest y/n; pairs of directories over shapes %v, distinct/colliding) x each Tree of it x {truncation at EVERY length, EVERY byte x (single-bit flips of bits %v, all bits flipped, +1), one byte appended (2 values)} x %d CAS buffer kinds (validating eager / validating streaming with chunk sizes / non-validating slice / non-validating ReaderAt) x CAS {holds exactly the pristine objects; for non-validating kinds also: holds every digest} x batch sizes %v; plus reads of each Tree failing with INTERNAL at EVERY offset (streaming kinds)", len(specs), pairShapesSmall, bits, len(bms), cbatches))
 		done := sub.Timer()
 		d := &driver{r: r, sub: sub, name: "tree-corruption"}
